@@ -152,4 +152,74 @@ def getters (sc : Nat → Script) (ops : List Op) (o : Obs) : Bool :=
 def spec (sc : Nat → Script) (ops : List Op) (o : Obs) : Bool :=
   threading sc ops o && order ops o && onceOnly ops o && stored sc ops o && getters sc ops o
 
+/-! ### the tightened judge (audit item 4)
+
+`spec` accepts (a) a finished dispatch that never awaited a once-callback that was live all along,
+(b) a snapshot moment anywhere up to the END of the history, (c) a getter result that is the final
+value of a dispatch finished only by the end of the history.  `specT` adds three clauses:
+
+  onceDue   a function subscribed only through subscribe_once is awaited AT LEAST once for every
+            registration that nobody unsubscribed and after which a dispatch of its name was created
+            that has finished
+  orderT    as `order`, with the snapshot moment no later than the loop run in which the dispatch is
+            first seen started (suspended or finished): a callback subscribed after that does not count
+  gettersT  a returned value is the final value of a dispatch of that name that is finished in the
+            snapshot in which the getter is first seen returned — at return time, not at the end -/
+
+/-- the subscription instance number (`sid`) the op at index `a` creates: subscriptions so far -/
+def sidAt (ops : List Op) (a : Nat) : Nat :=
+  ((ops.take a).filter fun op => match op with | .sub .. | .once .. => true | _ => false).length
+
+def isUnsuboOf (sid : Nat) : Op → Bool
+  | .unsubo _ x => x == sid
+  | _ => false
+
+/-- the registration at op index `a` (`once n cb`) is due: never unsubscribed through its wrapper,
+and a dispatch of `n` created after it has finished -/
+def dueAt (ops : List Op) (o : Obs) (a n : Nat) : Bool :=
+  !ops.any (isUnsuboOf (sidAt ops a)) &&
+    (List.range (dispList ops).length).any fun i =>
+      nameOf ops i == some n && lastDone o i &&
+        (match (dispIdxFrom 0 ops)[i]? with | some b => decide (a < b) | none => false)
+
+def onceDue (ops : List Op) (o : Obs) : Bool :=
+  ops.all fun op =>
+    match op with
+    | .once _ cb =>
+      ops.any (isSubOf cb) ||
+        decide (((List.range ops.length).filter fun a =>
+            match ops[a]? with
+            | some (Op.once n c) => c == cb && dueAt ops o a n
+            | _ => false).length ≤ (o.log.filter (·.cb == cb)).length)
+    | _ => true
+
+/-- op index of the loop run in which dispatch `i` is first seen suspended or finished -/
+def firstSeen (ops : List Op) (o : Obs) (i : Nat) : Nat :=
+  match o.snaps.find? fun sn => sn.done.getD i false || (sn.susp.getD i none).isSome with
+  | some sn => sn.op
+  | none => ops.length
+
+def orderT (ops : List Op) (o : Obs) : Bool :=
+  (List.range (dispList ops).length).all fun i =>
+    match (dispList ops)[i]?, (dispIdxFrom 0 ops)[i]? with
+    | some (n, _), some a => (List.range (firstSeen ops o i + 1)).any fun k => orderAt ops o i n a k
+    | _, _ => true
+
+def gettersT (sc : Nat → Script) (ops : List Op) (o : Obs) : Bool :=
+  (List.range o.wmeta.length).all fun j =>
+    match o.wmeta[j]?, (waitList ops)[j]? with
+    | some m, some (n, _) =>
+      (match m.fin with
+      | .returned v a =>
+        (match o.snaps.find? fun sn => sn.ws.getD j .notYet == .returned v a with
+         | some sn =>
+           (List.range (dispList ops).length).any fun i =>
+             nameOf ops i == some n && sn.done.getD i false && finalOf sc ops o i == some v
+         | none => false)
+      | _ => true)
+    | _, _ => true
+
+def specT (sc : Nat → Script) (ops : List Op) (o : Obs) : Bool :=
+  spec sc ops o && onceDue ops o && orderT ops o && gettersT sc ops o
+
 end PlumVerif.C13
